@@ -113,6 +113,9 @@ pub struct Cfg {
     pub deadline: Option<std::time::Instant>,
     /// stop exploring a script as soon as a monitor reported something
     pub stop_at_first_violation: bool,
+    /// ... except for these tags (listed known findings): exploration of the script goes on past them, so that
+    /// a different violation in the same script is still found
+    pub ignore_tags: Vec<String>,
 }
 
 impl Default for Cfg {
@@ -127,6 +130,7 @@ impl Default for Cfg {
             wall_cap_s: 600.0,
             deadline: None,
             stop_at_first_violation: true,
+            ignore_tags: vec![],
         }
     }
 }
@@ -681,7 +685,7 @@ pub fn explore(world: World, cfg: &Cfg, mon: &mut dyn Monitor) -> Explored {
                 break;
             }
         }
-        if cfg.stop_at_first_violation && !found.is_empty() {
+        if cfg.stop_at_first_violation && found.iter().any(|f| !cfg.ignore_tags.contains(&f.viol.tag)) {
             stats.capped = Some("stopped after the first violation in this script".into());
             break;
         }
